@@ -643,7 +643,28 @@ def check_needed(ck, prog):
                   "%s() returns LZMA_MEMLIMIT_ERROR when `%s`, but %s() never reads %s: lzma_memusage() then reports what "
                   "happens to be allocated instead of what is needed, so `raise the limit to lzma_memusage() and continue` "
                   "cannot succeed and xz prints a wrong requirement" % (fn, ex.show(c), mc, how), key="NEEDED:%s:%s" % (fn, name))
-    ck.floor("C09-NEEDED", 4)
+    # the single-call decoder reports the need through its in/out parameter: "*memlimit ... if LZMA_MEMLIMIT_ERROR is
+    # returned, the minimum required memlimit value is stored here": the pointer goes into memconfig's memusage slot
+    f = prog.fn("lzma_stream_buffer_decode", "stream_buffer_decoder.c")
+    ck.saw_function(f)
+    site = None
+    for b, i, e in f.iter_elems():
+        for c in ex.calls(e, into_refs=False):
+            cal = ex.strip(c.get("callee")) if c.get("callee") is not None else None
+            if cal is not None and cal.get("k") == "mem" and cal["f"] == "memconfig" and len(c["args"]) == 4:
+                site = (c, e)
+    if site is None:
+        raise AnalysisBroken("lzma_stream_buffer_decode: call through the memconfig slot not found")
+    a1, a2 = ex.strip(site[0]["args"][1]), ex.strip(site[0]["args"][2])
+    ok = a1 is not None and a1.get("k") == "var" and a1["n"] == "memlimit" and not (
+        a2 is not None and a2.get("k") == "var" and a2["n"] == "memlimit")
+    ck.ob("C09-NEEDED", "lzma_stream_buffer_decode:memlimit-out", ok, common.where(f, site[1]),
+          "lzma_stream_buffer_decode: memconfig(coder, memlimit /* receives the usage */, &old, 0)" if ok else
+          "lzma_stream_buffer_decode(): the caller's `memlimit` pointer is not passed as the memory-usage output of "
+          "memconfig() (`%s`): after LZMA_MEMLIMIT_ERROR *memlimit does not hold the amount that is needed, so the "
+          "documented retry with that value cannot succeed" % ex.show(site[0])[:90],
+          key="NEEDED:lzma_stream_buffer_decode:memlimit-out")
+    ck.floor("C09-NEEDED", 5)
 
 
 def check_saturate(ck, prog):
@@ -803,6 +824,104 @@ def _dead_store(prog, cg, g, elem, within):
         if args and all(ex.is_const(a, 0) for a in args):
             return True
     return False
+
+
+def check_free_first(ck, prog):
+    """`if (K != wanted) { free(P); P = alloc(wanted); ... }`: when a cached buffer is replaced because its size key
+    changed, the old buffer is released BEFORE the new one is requested.  The memory usage that is compared with the
+    limit counts one buffer; with the opposite order both are live during the allocation and the peak exceeds what
+    was reported and allowed."""
+    ck.rule("C09-FREEFIRST", "a cached buffer that is replaced because its size key changed is freed before its "
+            "replacement is allocated")
+    n = 0
+    for f in sorted(prog.all_functions("liblzma"), key=lambda f: (f.file, f.line)):
+        if not f.blocks:
+            continue
+        doms = None
+        for b in f.blocks.values():
+            t = b.term
+            if not t or "cond" not in t or len(b.succs) != 2:
+                continue
+            c = ex.strip(t["cond"])
+            if c is None or c.get("k") != "bin" or c["op"] not in ("!=", "=="):
+                continue
+            sides = [ex.strip(c["l"]), ex.strip(c["r"])]
+            K = [s_ for s_ in sides if s_ is not None and s_.get("k") == "mem"]
+            other = [s_ for s_ in sides if s_ is not None and s_.get("k") != "mem"]
+            if len(K) != 1 or not other or ex.const_val(other[0]) is not None:
+                continue
+            K = K[0]
+            if doms is None:
+                doms = cfg.dominators(f)
+            rs_ = b.succs[0] if c["op"] == "!=" else b.succs[1]
+            if rs_ is None:
+                continue
+            region = {x for x in f.blocks if rs_ in doms.get(x, ())}
+            # allocation sites whose result ends up in a member with the same root object as K
+            local, allocs = {}, []
+            for x in sorted(region, reverse=True):
+                for i, e in enumerate(f.blocks[x].elems):
+                    if e is None:
+                        continue
+                    d = ex.deref(e)
+                    if d.get("k") == "decl" and d.get("init") is not None:
+                        i0 = ex.strip(d["init"])
+                        if i0 is not None and i0.get("k") == "call" and i0.get("fn") in ("lzma_alloc", "lzma_alloc_zero"):
+                            local[d["n"]] = (x, i, e)
+                    for (l, r, op, node) in ex.writes(e):
+                        ls, rr = ex.strip(l), (ex.strip(r) if r is not None else None)
+                        if rr is None or ls is None:
+                            continue
+                        isalloc = rr.get("k") == "call" and rr.get("fn") in ("lzma_alloc", "lzma_alloc_zero")
+                        if isalloc and ls.get("k") == "mem":
+                            allocs.append((ls, x, i, e))
+                        elif isalloc and ls.get("k") == "var":
+                            local[ls["n"]] = (x, i, e)
+            for x in region:
+                for i, e in enumerate(f.blocks[x].elems):
+                    if e is None:
+                        continue
+                    for (l, r, op, node) in ex.writes(e):
+                        ls, rr = ex.strip(l), (ex.strip(r) if r is not None else None)
+                        if ls is not None and ls.get("k") == "mem" and rr is not None and rr.get("k") == "var" and rr["n"] in local:
+                            allocs.append((ls,) + local[rr["n"]])
+            rootK = ex.lvalue_root(K)
+            for (P, ax, ai, ae) in allocs:
+                rootP = ex.lvalue_root(P)
+                if rootK is None or rootP is None or rootK.get("n") != rootP.get("n"):
+                    continue
+                frees = [(x, i) for x in region for i, e in enumerate(f.blocks[x].elems) if e is not None
+                         for cc in ex.calls(e, into_refs=False)
+                         if cc.get("fn") == "lzma_free" and cc["args"] and ex.same(cc["args"][0], P)]
+                if not frees:
+                    continue
+                n += 1
+                ck.saw_function(f)
+                # is the allocation reachable from the start of the region without passing a free(P)?
+                fb = {}
+                for (x, i) in frees:
+                    fb[x] = min(fb.get(x, 1 << 30), i)
+                seen, st, bad = set(), [rs_], False
+                while st:
+                    x = st.pop()
+                    if x in seen or x not in region:
+                        continue
+                    seen.add(x)
+                    if x == ax and not (x in fb and fb[x] < ai):
+                        bad = True
+                        break
+                    if x in fb:
+                        continue
+                    st.extend(y for y in f.blocks[x].succs if y is not None)
+                ck.ob("C09-FREEFIRST", "%s:%s" % (f.name, ex.show(P)), not bad, common.where(f, ae),
+                      "%s(): lzma_free(%s) precedes the allocation of its replacement (guard `%s`)" % (
+                          f.name, ex.show(P), ex.show(c)) if not bad else
+                      "%s(): the replacement for %s is allocated (line %s) while the old buffer is still allocated: it is "
+                      "freed only afterwards, so both buffers are live at once and the peak memory use exceeds the usage "
+                      "that was reported and compared with the memory limit (which counts one buffer)" % (
+                          f.name, ex.show(P), ex.line(ae)), key="FREEFIRST:%s:%s" % (f.name, ex.show(P)))
+    ck.floor("C09-FREEFIRST", 1)
+    return n
 
 
 def check_optpath(ck, prog):
@@ -969,6 +1088,7 @@ def run(ck):
     check_terms(ck, prog, prog_xz)
     check_reserve_and_default(ck, prog, prog_xz)
     check_optpath(ck, prog)
+    check_free_first(ck, prog)
     check_clamp(ck, prog)
     check_saturate(ck, prog)
     check_usage_not_remaining(ck, prog)
